@@ -364,7 +364,9 @@ def start(u: U):
     u.loop(FN_START, 0, inv=inv, havoc=lambda L: None, at_head=at_head,
            types={"resp": lambda nm: (None if u.choose(2, "resp@loop") == 0 else resp)})
     t_now = {}
-    u.loop(FN_START, 1, inv=lambda L: [("deadline_fixed", True)], havoc=lambda L: fields(h)["_loop"].__setattr__("t", u.real("now@linger")),
+    u.loop(FN_START, 1, inv=lambda L: [("deadline_fixed", True)],
+           havoc=lambda L: (fields(h)["_loop"].__setattr__("t", u.real("now@linger")),
+                            setattr(payload, "eof", u.bool("payload.eof@linger"))),
            types={"now": lambda nm: u.real("now@loop")})
     out = u.call(f, h)
     names = [e[0] for e in log]
@@ -405,7 +407,7 @@ def start(u: U):
                 "cancellation while a request is in flight force-closes the connection")
 
 
-@unit("C05", "start.continue_condition", functions=[f"{MOD}:RequestHandler.start"], timeout_ms=20000)
+@unit("C05", "start.continue_condition", functions=[f"{MOD}:RequestHandler.start"], timeout_ms=20000, also=("C02",))
 def start_continue(u: U):
     """the request loop goes round again only if the response allowed keep-alive and nobody asked to close; then the
     keep-alive timer is armed"""
@@ -413,9 +415,18 @@ def start_continue(u: U):
     M = live()
     log = []
     payload = _Payload(u, log)
-    u.assume(payload.eof)
     q = _Queue(u, log)
     q.item = ("MSG", payload)
+
+    class _Timeout:
+        def __init__(self, t):
+            pass
+
+        async def __aenter__(self):
+            return self
+
+        async def __aexit__(self, *a):
+            return False
 
     class _Resp:
         keep_alive = u.bool("resp.keep_alive")
@@ -475,13 +486,14 @@ def start_continue(u: U):
                "_request_factory": lambda *a: type("R", (), {"_task": None})(), "_request_handler": "HANDLER",
                "_force_close": False, "_close": close_flag, "_messages": q, "_waiter": None, "_parser": _Parser(),
                "_msg_queue_paused": False, "_msg_queue_resume_size": 0, "_logging_enabled": False, "_task_handler": "TH",
-               "_keepalive": False, "_lingering_time": 0.0, "_next_keepalive_close_time": 0.0,
+               "_keepalive": False, "_lingering_time": u.real("lingering_time"), "_next_keepalive_close_time": 0.0,
                "_keepalive_handle": None if u.choose(2, "timer_exists") == 0 else "OLD", "transport": _Transport()},
               {"_handle_request": handle_request, "_resume_msg_queue_reading": lambda self: None,
                "log_debug": lambda self, *a, **k: None, "log_exception": lambda self, *a, **k: None,
                "close": lambda self: closer(self), "force_close": lambda self: forcer(self),
                "_process_keepalive": lambda self: None}, shared=False)
-    f = u.load(MOD, "RequestHandler.start", globals={"asyncio": _asyncio, "StreamWriter": lambda *a: "WRITER"})
+    f = u.load(MOD, "RequestHandler.start", globals={"asyncio": _asyncio, "StreamWriter": lambda *a: "WRITER",
+                                                     "ceil_timeout": _Timeout})
     went_round = {"v": False}
 
     def at_back(L):
@@ -494,11 +506,16 @@ def start_continue(u: U):
 
     u.loop(FN_START, 0, inv=lambda L: [], havoc=lambda L: None, at_back=at_back,
            types={"resp": lambda nm: None})
-    u.loop(FN_START, 1, inv=lambda L: [])
+    u.loop(FN_START, 1, inv=lambda L: [], havoc=lambda L: setattr(payload, "eof", u.bool("payload.eof@linger")))
     out = u.call(f, h)
     if out.ok:
         u.check("C05.start.break_when_not_keepalive", "transport.close" in [e[0] for e in log],
                 "otherwise the loop ends and the transport is closed")
+        u.check("C02.ka.server_honours_announced_keepalive",
+                Not(And(resp.keep_alive, Not(close_flag), payload.eof)),
+                "the server ends the connection after a response only if that response did not allow keep-alive, a close "
+                "was requested, or the request body is still unread - a fully drained body on a keep-alive response "
+                "keeps the connection, as the response told the client")
 
 
 # ---------------------------------------------------------------------------------------------------------------
